@@ -35,7 +35,10 @@ Definition obligations : bool :=
   && smem "_graph_nx" getstate_pops && smem "_igraph" getstate_pops
   && copy_clears_when_stale && temp_property_shape_ok && clear_shape_ok
   (* the hash covers ids, parents and coordinates *)
-  && smem "nodes:node_id,parent_id,x,y,z" core_data.
+  && smem "nodes:node_id,parent_id,x,y,z" core_data
+  (* a lock taken by @lock_neuron is released in a `finally`: every Lock of a history is followed by its Unlock even when the
+     operation raises *)
+  && lock_released_in_finally.
 
 Lemma source_meets_obligations : obligations = true.
 Proof. vm_compute. reflexivity. Qed.
@@ -56,14 +59,14 @@ Proof.
   destruct o as [|v|k| | |v| |]; simpl; try exact I.
   destruct (nth_error clear_sites k) as [site|] eqn:E; [|intros v []].
   assert (H := source_meets_obligations). unfold obligations in H. rewrite !andb_true_iff in H.
-  destruct H as [[[[[[[[[[_ _] H3] _] _] _] _] _] _] _] _]. rewrite forallb_forall in H3.
+  destruct H as [[[[[[[[[[[_ _] H3] _] _] _] _] _] _] _] _] _]. rewrite forallb_forall in H3.
   specialize (H3 site (nth_error_In _ _ E)). destruct (site_excl (snd (fst site))); [intros v []|discriminate].
 Qed.
 
 Lemma view_ok_gen v : v < nviews -> view_ok gen_facts v.
 Proof.
   intros Hv. assert (H := source_meets_obligations). unfold obligations in H. rewrite !andb_true_iff in H.
-  destruct H as [[[[[[[[[[H1 _] _] _] _] _] _] _] _] _] _]. rewrite forallb_forall in H1.
+  destruct H as [[[[[[[[[[[H1 _] _] _] _] _] _] _] _] _] _] _]. rewrite forallb_forall in H1.
   specialize (H1 v). rewrite in_seq in H1. specialize (H1 ltac:(lia)). apply andb_prop in H1. exact H1.
 Qed.
 
